@@ -19,6 +19,10 @@ pub struct GraphModel {
     /// `actions()` panics in this state (model-code panic, for C05)
     #[serde(default)]
     pub panic_on: Option<u8>,
+    /// `actions()` panics when called on the worker thread with this name (a panic in model code
+    /// that only one worker runs into)
+    #[serde(default)]
+    pub panic_thread: Option<String>,
 }
 
 fn cond<const K: usize>(m: &GraphModel, s: &u8) -> bool {
@@ -34,6 +38,11 @@ impl Model for GraphModel {
     fn actions(&self, s: &u8, out: &mut Vec<u8>) {
         if Some(*s) == self.panic_on {
             panic!("verif: model code panics in state {s}");
+        }
+        if let Some(t) = &self.panic_thread {
+            if std::thread::current().name() == Some(t.as_str()) {
+                panic!("verif: model code panics on thread {t}");
+            }
         }
         for i in 0..self.succ[*s as usize].len() {
             out.push(i as u8);
